@@ -221,3 +221,49 @@ func VerifH_C03_QuicStream() {
 	verifrt.Assert(len(bodies) == 1, "exactly one response frame per query")
 	vCheckResponse(bodies[0], 0x4242, 'k', true)
 }
+
+// VerifH_C15_HTTPClientAddrHeader: behind a reverse proxy (client_addr_header configured) the DoH handler charges –
+// and later routes / tags ECS for – the client named in the header (its first hop), IPv4 or IPv6, never the proxy's
+// socket address; a value that is not an address is a 400 and nothing is charged or forwarded.
+func VerifH_C15_HTTPClientAddrHeader() {
+	verifrt.Unwind(400)
+	verifrt.CtxNoExpiry = true
+	vHTTPStubs()
+	up := &vKeyedUpstream{}
+	r, charges := vLimitedRouter(up)
+	h := vHTTPHandler(r)
+	h.clientAddrHeader = "X-Forwarded-For"
+	const q64 = "EjQBAAABAAAAAAAAAXEAAAEAAQ"
+	forms := []struct {
+		v    string
+		want netip.Addr
+		ok   bool
+	}{
+		{"203.0.113.9", netip.AddrFrom4([4]byte{203, 0, 113, 9}), true},
+		{"203.0.113.9, 10.0.0.1", netip.AddrFrom4([4]byte{203, 0, 113, 9}), true},
+		{"2001:db8::5,10.0.0.1", netip.AddrFrom16([16]byte{0x20, 0x01, 0x0d, 0xb8, 0, 0, 0, 0, 0, 0, 0, 0, 0, 0, 0, 5}), true},
+		{"not-an-address", netip.Addr{}, false},
+	}
+	f := forms[verifrt.Choose("header", len(forms))]
+	w := &vRespWriter{hdr: http.Header{}}
+	req := &http.Request{Method: "GET", URL: &url.URL{Path: "/dns-query", RawQuery: "dns=" + q64},
+		Header:     http.Header{"Accept": {"application/dns-message"}, "X-Forwarded-For": {f.v}},
+		RemoteAddr: "192.0.2.200:4444"} // the reverse proxy
+	h.ServeHTTP(w, req)
+	verifrt.Reach("served")
+	if !f.ok {
+		verifrt.Assert(w.status == http.StatusBadRequest && len(*charges) == 0 && up.calls == 0 && len(w.bodies) == 0, "an unusable header value: 400, nothing charged, nothing forwarded")
+		return
+	}
+	verifrt.Assert(len(*charges) >= 1 && (*charges)[0].n == costHTTPQuery, "admission is charged first, with the HTTP query cost")
+	for _, c := range *charges {
+		// (the router charges the work done for an admitted query afterwards, too)
+		verifrt.Assert(c.addr == f.want, "every charge goes to the client named in the header (first hop), never to the proxy")
+	}
+	if up.calls == 0 {
+		verifrt.Assert(w.status == http.StatusServiceUnavailable && len(w.bodies) == 0, "refused: 503, no body")
+	} else {
+		verifrt.Reach("answered")
+		verifrt.Assert(len(w.bodies) == 1, "admitted: answered")
+	}
+}
